@@ -50,6 +50,9 @@ func (f *Rplacd) Call(s *slip.Scope, args slip.List, depth int) (result slip.Obj
 	if !ok || len(list) == 0 {
 		slip.TypePanic(s, depth, "cons", args[0], "cons", "list")
 	}
+	if args[1] == nil {
+		return list[:1]
+	}
 	if 1 < len(list) {
 		list = list[:2]
 		if a2, ok2 := args[1].(slip.List); ok2 {
